@@ -147,6 +147,21 @@ CLAIMED["C18"] = dict(
     design="6/C18",
 )
 
+CLAIMED["C20"] = dict(
+    text="Lean theorems (Props/C20.lean), parametric in the stages' matchers: in a serial run every stage with source-mode preceding reads "
+         "exactly the lines its predecessor collected and every other stage the origin file; a chain whose later stages are all preceding "
+         "yields the composition of the stages; a variable written by one member of a group is found with that member's final value in the "
+         "merged variables a reference reads; a header reference is the list of stripped cells under the header in the collected lines. "
+         "Tie: suite `chain` runs chains of 2-4 filter csvpaths (preceding on a suffix) and compares every member with the same filter run "
+         "alone on its predecessor's lines, the manifests' actual_data_file, and the Lean chain model under recorded matcher scripts; "
+         "reference cases evaluate $g.variables.v, $g.variables.t.k, $g.headers.h and a results reference as file name after 1-3 runs of g "
+         "under an injected clock.",
+    note="Known finding preceding-after-empty. Default dialect only. get_variables' first-member-wins merge is modelled as is; the statement is "
+         "claimed for variables written by one member.",
+    technique="Lean 4 proof (composition of parametric stage runs; list lemmas for merged variables) + correspondence",
+    design="6/C20",
+)
+
 NOT_YET = "check not built yet in this revision (planned: see DESIGN.md section 6); not claimed until its theorem and correspondence suite exist"
 
 
